@@ -64,6 +64,10 @@ type ccSender struct {
 	msgs  []*ccMsg
 }
 
+// lostAfterReset counts messages for TCP hops that vanished in a round right after the hops had
+// reset their connections (not judged, see the comment where it is incremented).
+var lostAfterReset int
+
 func scenarioConcurrent() int {
 	prop := *flagProp
 	what := map[string]string{
@@ -96,6 +100,7 @@ func scenarioConcurrent() int {
 			return rc
 		}
 	}
+	run.Observe("messages_for_tcp_hops_lost_right_after_the_hops_reset_their_connections", lostAfterReset)
 	run.Observe("messages_judged", judged)
 	run.Observe("sentinels_repeated", retries)
 	run.Observe("messages_relayed_to_the_right_place_intact", relayedOK)
@@ -446,6 +451,14 @@ func concurrentProcess(run *ev.Run, g *sip.Gen, prop string, gmp, pi, quota int,
 				if prop == "C03" {
 					if len(obs) == 0 && dropped && (m.proto == "udp" || m.egress == "udp") {
 						run.Inconclusive(1) // the kernel dropped datagrams in this round
+						continue
+					}
+					if len(obs) == 0 && round%2 == 1 && strings.HasPrefix(m.wantEp, "nh") && strings.HasSuffix(m.wantEp, "/tcp") {
+						// the TCP hops reset their connections right before this round: a message the proxy
+						// wrote into a connection whose reset it had not seen yet is lost by TCP, not by the
+						// routing (the stated don't-care of C20) - counted, not judged
+						run.Inconclusive(1)
+						lostAfterReset++
 						continue
 					}
 					if len(obs) != 1 || obs[0].Ep != m.wantEp {
